@@ -27,7 +27,7 @@ LEVEL_TEXT = ('Random operation sequences over {reset, step, read state, read ob
               'raise without a representation.')
 LEVEL_NOTE = 'Trusted: the shadow driver; lazy-evaluation order taken from the InnerEnv.observation docstring.'
 SHARDS = {'quick': 4, 'thorough': 16}
-BUDGET_S = {'quick': 60, 'thorough': 600}
+BUDGET_S = {'quick': 300, 'thorough': 2400}
 RULE = ('case = (config or composition, seed, operation sequence). non-trivial = the sequence contains a repeated read, a step '
         'without read, and a mid-episode reset; distinct by (config, seed, hash of the operation sequence).')
 ASSUMPTIONS = ['twin environments built from the same configuration with the same seed start from identical generator states']
